@@ -17,6 +17,8 @@ enum Kind {
   Subscribing,
   /// repeating task with period `p`, declines at sequence number `n`
   Repeat(u64, usize),
+  /// repeating task whose first run is due after `first`, then every `p`
+  RepeatFirst(u64, u64, usize),
   /// one-shot over a future the harness resolves
   Fut,
 }
@@ -132,6 +134,10 @@ fn task_job(specs: Vec<Spec>, len: usize, jumps: bool) -> Job {
         Kind::Repeat(p, n) => {
           Handle::N(sched.schedule(RepeatTask::new(ticks(p), repeat_body, (log.clone(), n)), d))
         }
+        Kind::RepeatFirst(first, p, n) => Handle::N(sched.schedule(
+          RepeatTask::with_first_delay(ticks(first), ticks(p), repeat_body, (log.clone(), n)),
+          d,
+        )),
         Kind::Fut => Handle::N(sched.schedule(
           FutureTask::new(ScriptFut(script.clone()), fut_body, log.clone()),
           d,
@@ -208,7 +214,19 @@ fn task_job(specs: Vec<Spec>, len: usize, jumps: bool) -> Job {
         let runs = t.log.lock().unwrap().runs.clone();
         let delay = t.spec.delay.unwrap_or(0);
         match t.spec.kind {
-          Kind::Repeat(p, n) => {
+          Kind::Repeat(p, n) | Kind::RepeatFirst(_, p, n) => {
+            let first_due = match t.spec.kind {
+              Kind::RepeatFirst(f, ..) => f,
+              _ => 0,
+            };
+            if let Some((at, _)) = runs.first() {
+              if *at < t.scheduled_at + first_due {
+                obs.fail(
+                  "c19:ran-early",
+                  format!("{specs:?} after [{}]: task {i} first ran at t={at}, its first run is due after {first_due}", hist.join(" ")),
+                );
+              }
+            }
             for (k, (at, seq)) in runs.iter().enumerate() {
               if *seq != k {
                 obs.fail(
@@ -301,7 +319,15 @@ fn task_job(specs: Vec<Spec>, len: usize, jumps: bool) -> Job {
 }
 
 pub fn plan(tier: Tier) -> Plan {
-  let kinds = [Kind::Once, Kind::Subscribing, Kind::Repeat(1, 2), Kind::Repeat(2, 3), Kind::Fut];
+  let kinds = [
+    Kind::Once,
+    Kind::Subscribing,
+    Kind::Repeat(1, 2),
+    Kind::Repeat(2, 3),
+    Kind::RepeatFirst(2, 1, 3),
+    Kind::RepeatFirst(1, 2, 3),
+    Kind::Fut,
+  ];
   let delays = [None, Some(1), Some(2)];
   let mut specs = vec![];
   for k in kinds {
